@@ -77,6 +77,7 @@ class CaseSet:
         self.meta = []       # per answer: dict describing the case
         self.worlds = []     # (slot, wj, elab)
         self.model_ok = []   # per world: can the model evaluate it?
+        self.has_lines = []  # per world: slabs/faults in the model (implementation side runs with the culling hook off)
 
     def cleanup(self):
         if not os.environ.get("VERIF_KEEP"):
@@ -97,6 +98,14 @@ class CaseSet:
         ok = model and el.unsupported is None
         self.worlds.append((slot, wj, el))
         self.model_ok.append(ok)
+        lines = bool(ok and el.has_lines)
+        self.has_lines.append(lines)
+        if lines:
+            # SlabFeature.v does not model the acceleration shortcuts: the implementation side of this world is built
+            # with them switched off (GWB_VERIF hook); C07 checks separately that they never change an answer
+            self.probe.append("culling 0")
+            self.mlines.append("let () = out_str \"skip\"")
+            self.meta.append({"kind": "hook"})
         self.probe.append("world %d %s %d" % (slot, path, seed))
         if ok:
             tape = "no_tape"
@@ -109,11 +118,20 @@ class CaseSet:
         else:
             self.mlines.append("let () = out_str \"skip\"")
         self.meta.append({"kind": "world", "slot": slot, "world": wj})
+        if lines:
+            self.probe.append("culling 1")
+            self.mlines.append("let () = out_str \"skip\"")
+            self.meta.append({"kind": "hook"})
         return slot
 
     def _add(self, pline, mline, meta, slot):
         self.probe.append(pline)
-        self.mlines.append(mline if self.model_ok[slot] else "let () = out_str \"skip\"")
+        modelled = self.model_ok[slot]
+        if modelled and self.has_lines[slot]:
+            # grains inside slabs/faults are not modelled (quaternion interpolation between sections)
+            if meta.get("kind") in ("g3", "g2") or any(p[0] == 3 for p in meta.get("props", [])):
+                modelled = False
+        self.mlines.append(mline if modelled else "let () = out_str \"skip\"")
         meta["slot"] = slot
         self.meta.append(meta)
         return len(self.probe) - 1
